@@ -877,12 +877,14 @@ def c12_group(job):
         # than the clipped last step, larger than dt, larger than the whole interval; loose / tight tolerances)
         irr = [{}, dict(dt_min=1.5 * tm.tick), dict(dt_min=tm.dt(T) * 4, rtol=1e-1, atol=1e-1),
                dict(dt_min=tm.dt(d) * 1.25, rtol=1e-12, atol=1e-12)][(bi + seed + d) % 4]
+        # dt is a `Scalar`: a Python float or (every third layout) a 0-dim tensor in the dtype of the problem
+        dt_arg = torch.tensor(tm.dt(d), dtype=p.dtype) if (bi + d) % 3 == 1 else tm.dt(d)
         try:
             if want_trace:
                 with LoopRecorder(bm) as rec:
-                    ys = p.sdeint(ts_f, tm.dt(d), bm, **irr)
+                    ys = p.sdeint(ts_f, dt_arg, bm, **irr)
             else:
-                ys = p.sdeint(ts_f, tm.dt(d), bm, **irr)
+                ys = p.sdeint(ts_f, dt_arg, bm, **irr)
         except Exception as e:  # noqa
             fail("exception", f"sdeint raised {type(e).__name__}: {e} (options {irr})", beh)
             continue
